@@ -74,13 +74,14 @@ StoreOK(ev, f, c) ==
 
 TFetch ==
     /\ l <= TraceLen /\ TraceLog[l].e = "Fetch"
-    /\ FetchOK(TraceLog[l], Fmt(Code(TraceLog[l].f)), Fmt(Code(TraceLog[l].c)))
+    \* "= TRUE": makes TLC evaluate the judgement as a plain expression instead of walking it as an action
+    /\ FetchOK(TraceLog[l], Fmt(Code(TraceLog[l].f)), Fmt(Code(TraceLog[l].c))) = TRUE
     /\ dst' = TraceLog[l].mids[Len(TraceLog[l].mids)].after
     /\ l' = l + 1
 
 TStore ==
     /\ l <= TraceLen /\ TraceLog[l].e = "Store"
-    /\ StoreOK(TraceLog[l], Fmt(Code(TraceLog[l].f)), Fmt(Code(TraceLog[l].c)))
+    /\ StoreOK(TraceLog[l], Fmt(Code(TraceLog[l].f)), Fmt(Code(TraceLog[l].c))) = TRUE
     /\ dst' = TraceLog[l].outs[Len(TraceLog[l].outs)].after
     /\ l' = l + 1
 
